@@ -60,6 +60,18 @@ CHECKS = {
             'x bond patterns (path, stars of degree 1..9, bonds around serial 9999/10000, first-last) for PDB CONECT/TER. Each read-back field '
             'is judged by its own column rule, so a shifted column is a mismatch even where another field overflowed.',
             'Names without blanks; an overflowing field may return any width-long prefix or suffix of its text.', '§4 C16'),
+    'C13': ('B', 'bounded exhaustive enumeration of files built from section chunks (every sequence of top-level chunks up to a length bound) plus every listed fault at every applicable line, loaded by the real parsers and compared with the declaration emitted alongside the text',
+            'model_checking',
+            'A generator emits each file together with its declared content. Every sequence of <=3 (thorough 4) top-level chunks over '
+            '{macros, variables, citations, rich block, minimal block, rich link, link in prefix form, the same link in attribute form, '
+            'modification} is loaded with read_ff and compared in canonical form: members exactly once and in file order, atoms, attributes, '
+            'edges, interactions with parameters/meta/versions, #meta, removal markers, non-edges, patterns, features, molmeta, variables, '
+            'macro substitution. Likewise every sequence of <=3 (4) moleculetypes for read_itp (conditionals, #else, virtual_sitesn) and all '
+            'orders of three .map molecules (multiplicity and ! weights, several targets). Every listed fault (unknown section, undefined '
+            'block atom by name / index N+1 / index 0 / edge, duplicate atom, unbalanced braces or conditionals, prefix/order contradiction, '
+            'wrong atom count) is injected at every applicable line of every file of <=2 (3) chunks and must be rejected.',
+            'The documented grammar features one at a time inside fixed chunks, not all feature combinations; .mapping (modification mapping) '
+            'files and force-field-wide citations are not compared; one known finding (index 0 in .ff) is reported, not repaired.', '§4 C13'),
     'C07': ('A+D', 'explicit-state BFS over deferred-writer histories with a dict file-system model; exhaustive crash-point/torn-write enumeration of every finalisation; audit-hook monitor over all library writers; full product of a CLI run alphabet through the script\'s own entry() bound to real sub-processes',
             'model_checking',
             'Four layers. (1) every enabled operation (open w/a/r+/wb incl. re-opens, files appearing from outside, write, close) in every '
